@@ -210,8 +210,48 @@ fn sched_cases() -> Vec<(Vec<(f64, i64)>, u64)> {
     ]
 }
 
+// ---- delay cells on the VM (property C05): run a program and compare with the reference meaning of delay -------
+fn run_vm(src: &str, times: usize) -> Result<Vec<f64>, String> {
+    use mimium_lang::{Config, ExecContext};
+    use mimium_lang::runtime::vm::Machine;
+    let mut ctx = ExecContext::new([].into_iter(), None, Config::default());
+    ctx.prepare_machine(src).map_err(|e| e.iter().map(|x| x.get_message()).collect::<Vec<_>>().join("; "))?;
+    let machine = ctx.get_vm_mut().ok_or("no vm")?;
+    let _ = machine.execute_main();
+    let mut out = vec![];
+    for _ in 0..times {
+        if machine.execute_entry("dsp") < 0 { return Err("dsp failed".into()); }
+        out.push(Machine::get_as_array::<f64>(machine.get_top_n(1))[0]);
+    }
+    Ok(out)
+}
+/// two delay cells of different sizes in one function: sizes (n1, n2), delay times (t1, t2)
+fn delay_pair_violation(n1: u64, t1: u64, n2: u64, t2: u64) -> Option<String> {
+    let src = format!("fn c1(){{ self+1.0 }}\nfn c2(){{ self+1.0 }}\nfn dsp(){{ delay({n1}.0, c1(), {t1}.0)*1000.0 + delay({n2}.0, c2(), {t2}.0) }}\n");
+    let times = 24usize;
+    let got = match run_vm(&src, times) { Ok(v) => v, Err(e) => return Some(format!("program rejected: {e}")) };
+    // reference: counter yields k at sample k (self starts at 0, value returned is the previous self + 1 ... measured below)
+    let base = match run_vm("fn c1(){ self+1.0 }\nfn dsp(){ c1() }\n", times) { Ok(v) => v, Err(e) => return Some(e) };
+    let at = |k: i64| -> f64 { if k < 0 { 0.0 } else { base[k as usize] } };
+    for k in 0..times as i64 {
+        let expect = at(k - t1 as i64) * 1000.0 + at(k - t2 as i64);
+        if got[k as usize] != expect {
+            return Some(format!("VM Delay arm: sample {k}: got {} expected {} (each delay cell must be read with ITS OWN size)", got[k as usize], expect));
+        }
+    }
+    None
+}
+
 fn main() {
     let args: Vec<String> = std::env::args().collect();
+    if args.get(1).map(|s| s.as_str()) == Some("delay-pair") {
+        let v: Vec<u64> = args[2..6].iter().map(|x| x.parse().unwrap()).collect();
+        match delay_pair_violation(v[0], v[1], v[2], v[3]) {
+            Some(c) => println!("FAILS {c}"),
+            None => println!("HOLDS"),
+        }
+        return;
+    }
     if args.get(1).map(|s| s.as_str()) == Some("sched-search") || args.get(1).map(|s| s.as_str()) == Some("sched-run") {
         let only: Option<usize> = args.get(2).and_then(|s| s.parse().ok());
         for (i, (tasks, last)) in sched_cases().iter().enumerate() {
